@@ -110,7 +110,7 @@ class View:
 class Enc:
     """One traced function of the real code, interpreted over z3 terms."""
 
-    def __init__(self, name, fn, example_args, sym_args, mode="real", interp=None, key_roots=None, **ikw):
+    def __init__(self, name, fn, example_args, sym_args, mode="real", interp=None, key_roots=None, domain=None, **ikw):
         self.name, self.fn, self.example_args, self.sym_args = name, fn, example_args, sym_args
         t0 = time.time()
         self.jaxpr = jax.make_jaxpr(fn)(*example_args)
@@ -123,6 +123,7 @@ class Enc:
         self.n_eqns = count_eqns(self.jaxpr.jaxpr)
         self.encode_s = time.time() - t0
         self.key_roots = key_roots or {}
+        self.domain = domain or {}
         self.view = View(self, self.out, self.I.calls)
 
     # ---- concrete side
@@ -149,7 +150,10 @@ class Enc:
                     nm = c.decl().name()
                     if nm in env and env[nm] is not None:
                         vals[i] = env[nm]
-                    elif rng is not None:
+                    elif rng is not None and nm in self.domain:
+                        lo, hi = self.domain[nm]
+                        vals[i] = rng.integers(lo, hi + 1) if z3.is_int(c) else rng.uniform(lo, hi)
+                    elif rng is not None and z3.is_real(c):
                         vals[i] = rng.normal()
                     env[nm] = vals[i].item() if hasattr(vals[i], "item") else vals[i]
             out.append(jnp.asarray(vals.reshape(ex.shape), dtype=ex.dtype))
@@ -334,8 +338,16 @@ def side_of(encs):
 
 def build_query(ob):
     views = [e.view for e in ob.encs]
-    hyps, goal = ob.build(views)
+    built = ob.build(views[0] if len(views) == 1 else views)
+    hyps, goal = built[0], built[1]
     hyps = list(hyps) + side_of(ob.encs)
+    if len(built) > 2 and built[2]:
+        # generalisation: identical (hash-consed) sub-terms are replaced by fresh constants of the
+        # same sort -- sound for validity: what holds for an arbitrary value holds for the term
+        sub = [(t, z3.FreshConst(t.sort(), "abs")) for t in built[2] if z3.is_expr(t) and not z3.is_const(t)]
+        if sub:
+            hyps = [z3.substitute(h, *sub) for h in hyps]
+            goal = z3.substitute(goal, *sub)
     if ob.case:
         hyps = [z3.substitute(h, *ob.case) for h in hyps]
         goal = z3.substitute(goal, *ob.case)
@@ -453,7 +465,7 @@ def replay_model(ob, model, rng, hyps, goal):
         env = {}
         for nm, v in base.items():
             if isinstance(v, float):
-                lo, hi = ob.bounds.get(nm, (None, None))
+                lo, hi = ob.bounds.get(nm, None) or next((e.domain[nm] for e in ob.encs if nm in e.domain), (None, None))
                 x = float(v + rng.normal() * (0.5 + 0.5 * abs(v))) if k % 2 == 0 else float(rng.normal() * 1.5)
                 if lo is not None:
                     x = min(max(x, lo), hi)
@@ -471,7 +483,8 @@ def replay_model(ob, model, rng, hyps, goal):
                 cargs = e.concrete_args(env)
                 rviews.append(e.replay_view(env, cargs))
                 inputs[e.name] = jax.tree_util.tree_map(lambda x: np.asarray(x).tolist(), cargs)
-            rh, rg = ob.build(rviews)
+            rb = ob.build(rviews[0] if len(rviews) == 1 else rviews)
+            rh, rg = rb[0], rb[1]
             ze = ZEval(env, tol=ob.tol)
             hyps_ok = all(bool(ze(h)) for h in rh)
             gval = bool(ze(rg))
